@@ -278,7 +278,7 @@ def bounds(tier):
     also go through the run and ctx levels; wide: F1/F2 use the wide configuration set."""
     if tier == "quick":
         return {"G": 2, "L1": 3, "L2s": 5, "L2m": 6, "L2": 7, "R1": 2, "R2": 4, "F1_run_contexts": 9, "wide": False}
-    return {"G": 3, "L1": 4, "L2s": 7, "L2m": 9, "L2": 9, "R1": 3, "R2": 6, "F1_run_contexts": 25, "wide": True}
+    return {"G": 3, "L1": 4, "L2s": 7, "L2m": 8, "L2": 9, "R1": 3, "R2": 6, "F1_run_contexts": 25, "wide": True}
 
 
 def families(tier, seed):
